@@ -363,6 +363,7 @@ func (r *runner) pair(s, t string, sh *shrinker) {
 }
 
 func run(c *mc.Ctx) {
+	runLongLiterals(c)
 	b := boundsOf(c.Tier)
 	r := &runner{c: c, symCases: map[rune]int64{}, facts: map[string]int64{}, keys: map[string]bool{}}
 	c.Add("evaluations", 0)
@@ -474,6 +475,9 @@ func run(c *mc.Ctx) {
 }
 
 func replayFn(c *mc.Ctx, raw json.RawMessage) (string, bool) {
+	if out, violated, mine := replayLong(raw); mine {
+		return out, violated
+	}
 	var rp replay
 	if err := json.Unmarshal(raw, &rp); err != nil {
 		return "bad replay: " + err.Error(), false
